@@ -15,6 +15,14 @@ RULE = ("random pairs of valid NFAs over a common alphabet (1-5 states, epsilon 
         "canonical pair; non-trivial = both languages non-empty and the operands are not literally identical")
 
 
+class SubNFA(NFA):
+    """A user's subclass that changes nothing."""
+
+
+class OtherSubNFA(NFA):
+    """Another one."""
+
+
 def variants(rng, n):
     yield "eliminated", n.eliminate_lambda()
     yield "determinised", NFA.from_dfa(DFA.from_nfa(n, minify=bool(rng.getrandbits(1))))
@@ -23,7 +31,9 @@ def variants(rng, n):
 
 def hk_trace_prepare(a, b, ta, tb, sy, label):
     """Run a == b under the spy; return (wire item for the mirror model under the observed schedule, judge)."""
-    if a.input_symbols != b.input_symbols:
+    if a.input_symbols != b.input_symbols or type(a) is not type(b):
+        # (with an instance of a subclass on the right Python calls the reflected method first, so which operand
+        # runs the loop is not what the expression says: only the answers are compared then)
         return None, None
     sta, stb = enc.Renum(enc.nfa_names(a)), enc.Renum(enc.nfa_names(b))
 
@@ -167,9 +177,18 @@ def run(ctx):
                 x, y, tag = gen.lasso_pair(rng, rng.choice(["a", "a", "ab"]))
                 check_pair(ctx, mk_nfa(x), mk_nfa(y), tag)
         if i % 5 == 0:
-            others = [gen.rand_nfa_def(rng, nmax=5, alphabet=sigma) if rng.random() < 0.7 else flip_final(rng, adef)
-                      for _ in range(5)]
-            check_session(ctx, adef, others, "session")
+            # (the right operands use the left operand's names: same-named state sets with other transitions)
+            names, _ = gen.pick_names(rng, 5)
+            refdef = gen.rand_nfa_def(rng, nmax=5, alphabet=sigma, names=list(names))
+            others = [gen.rand_nfa_def(rng, nmax=5, alphabet=sigma, names=list(names)) if rng.random() < 0.7
+                      else flip_final(rng, refdef) for _ in range(5)]
+            check_session(ctx, refdef, others, "session")
+        if i % 7 == 0:
+            # an instance of a subclass is an NFA too: same answers in every combination of classes
+            b = rng.choice([adef, flip_final(rng, adef), gen.rand_nfa_def(rng, nmax=5, alphabet=sigma)])
+            check_pair(ctx, SubNFA(**adef), mk_nfa(b), "subclass_left")
+            check_pair(ctx, a, SubNFA(**b), "subclass_right")
+            check_pair(ctx, SubNFA(**adef), OtherSubNFA(**b), "sibling_subclasses")
         if r < 0.4:
             check_pair(ctx, a, mk_nfa(gen.rand_nfa_def(rng, nmax=5, alphabet=sigma)), "random")
         elif r < 0.8:
